@@ -1,19 +1,59 @@
 """
-stream `securevalues` (C08, supplementary, evaluated on the implementation only): what SecureField.to_python makes of stored
+stream `securevalues` (C08): what SecureField.to_basic writes and what SecureField.to_python makes of stored
 values — valid ones (produced by to_basic, by another provider object, in another session) must give back the plaintext;
 values of the wrong shape or encoding (wrong types, missing / unknown / empty method, non-string or undecodable ciphertext,
 truncated / extended / misaligned ciphertext, ciphertext of another key) must be rejected with an error and never return a
 value.  The byte-level layer (XOR, PKCS7, CBC, IV layout) is compared with Crypto.v by the `crypto` stream; this stream covers
-the field-level wrapper around it (secure_field.py SecureField.to_basic / to_python), which has no Gallina entry point.
+the field-level wrapper around it (secure_field.py SecureField.to_basic / to_python).  It is a MODEL stream: the wrapper is
+SecureShape.v (`run_securevalues`: to_basic under the declared method with the recorded os.urandom IV, to_python of the
+stored value under the loading session's key -- shape checks, Python truthiness of the method, CPython's non-validating
+base64 decoder, method lookup, XOR / CBC / PKCS7 / the Gallina AES-256, strict UTF-8 decoding); outcome kinds (value /
+ValueError / UnicodeError / TypeError) and values are compared.  The direct oracle below is kept as it was.
 """
 import base64
 import os
 import shutil
 import tempfile
 
+from common import gal, g_bytes, g_str, g_bool, Broken
+
 NAME = "securevalues"
-MODEL = False
-IMPORTS = RUN = CASE_TYPE = None
+IMPORTS = "From Cinco Require Import Base SecureShape."
+RUN = "run_securevalues"
+CASE_TYPE = "svcase"
+KEYS = [bytes(range(32)), bytes([255]) * 32, bytes((i * 37 + 11) % 256 for i in range(32))]
+DECLARED = ["aes", "xor", "best", "rot13", ""]
+# what can sit in the `method` position of a stored map
+METHOD_VALUES = [0, 1, True, False, [], ["aes"], b"aes", "AES", " aes", "aes ", "best", "xor", "aes", 1.5, 0.0, -0.0,
+                 float("nan"), {}, {"a": 1}, (), ("aes",), "", None, "rot13", "Best"]
+OTHER_VALUES = [0, 7, True, False, 1.5, b"", b"bytes", [], ["aes", "x"], (), ("a",), {}, {"method": "aes"},
+                {"ciphertext": "QUJD"}, {"method": "xor", "ciphertext": "QUJD", "extra": 1},
+                {"extra": 0, "ciphertext": "QUJD", "method": "xor"}, {"method": "xor", "ciphertext": ""},
+                {"method": "xor", "ciphertext": "w6k="}, {"method": "xor", "ciphertext": "/w=="},
+                {"method": "aes", "ciphertext": "QUJD"}, {"Method": "xor", "ciphertext": "QUJD"},
+                {"method": "xor", "ciphertext": "QUJD", 1: 2, None: 3}]
+JUNK = " \n\t\r-_=*.,!\u00e9\u20ac=A/+"
+
+
+def rb(rng, n):
+    return bytes(rng.getrandbits(8) for _ in range(n))
+
+
+def junk_b64(rng, text):
+    """a text near a valid base64 text: characters inserted / removed / replaced, pads in odd places"""
+    t = list(text)
+    for _ in range(rng.randint(1, 4)):
+        r = rng.random()
+        pos = rng.randint(0, len(t))
+        if r < 0.45:
+            t.insert(pos, rng.choice(JUNK))
+        elif r < 0.7 and t:
+            del t[min(pos, len(t) - 1)]
+        elif r < 0.85 and t:
+            t[min(pos, len(t) - 1)] = rng.choice(JUNK)
+        else:
+            t = t[:pos] + ["="] * rng.randint(1, 3) + (t[pos:] if rng.random() < 0.5 else [])
+    return "".join(t)
 
 METHODS = ["aes", "xor", "best"]
 PLAINTEXTS = ["s3cr3t-value", "x", "0123456789abcdef", "0123456789abcdef0123456789abcdef", "päßwörd-ünïcode", "a" * 47, " "]
@@ -27,125 +67,225 @@ def generate(rng, tier):
              "bad-base64", "bad-base64-chars", "unpadded-base64", "overpadded-base64", "base64-with-newline", "truncated-1", "truncated-block", "truncated-to-iv", "extended-1", "extended-15",
              "empty-ciphertext", "other-key", "wrong-container-list", "wrong-container-int", "wrong-container-bytes",
              "wrong-method-for-ciphertext"]
+    import random
+    det = random.Random(11)
+
+    def mk(m, k, p, src, r):
+        c = {"method": m, "kind": k, "plain": p, "src": src, "key1": r.choice(KEYS) if src == "matrix" else rb(r, 32),
+             "key2": rb(r, 32), "iv": rb(r, 16)}
+        return c
     for m in METHODS:
         for k in kinds:
             for p in PLAINTEXTS[:3]:
-                cases.append({"method": m, "kind": k, "plain": p, "src": "matrix"})
-    for _ in range(150 if tier == "quick" else 4000):
-        cases.append({"method": rng.choice(METHODS), "kind": rng.choice(kinds), "plain": rng.choice(PLAINTEXTS), "src": "random"})
+                cases.append(mk(m, k, p, "matrix", det))
+    # the method position, the whole value, the declared method, the plain value: one case each
+    for mv in METHOD_VALUES:
+        c = mk("xor", "method-value", "s3cr3t-value", "matrix", det)
+        c["arg"] = mv
+        cases.append(c)
+    for ov in OTHER_VALUES:
+        c = mk("aes", "other-value", "s3cr3t-value", "matrix", det)
+        c["arg"] = ov
+        cases.append(c)
+    for d in DECLARED:
+        for p in ["", None, "x", "\U0001f600 smile", "\ud800lone", b"raw-bytes", b"", "p" * 33, "\u00e9" * 16]:
+            cases.append(mk(d, "valid", p, "matrix", det))
+    for m in METHODS:
+        for i in range(40):
+            cases.append(mk(m, "junk-base64", det.choice(PLAINTEXTS), "matrix", det))
+    for _ in range(300 if tier == "quick" else 5000):
+        r = rng.random()
+        if r < 0.5:
+            cases.append(mk(rng.choice(METHODS), rng.choice(kinds), rng.choice(PLAINTEXTS), "random", rng))
+        elif r < 0.8:
+            cases.append(mk(rng.choice(METHODS), "junk-base64", rng.choice(PLAINTEXTS), "random", rng))
+        elif r < 0.9:
+            c = mk(rng.choice(METHODS), "method-value", rng.choice(PLAINTEXTS), "random", rng)
+            c["arg"] = rng.choice(METHOD_VALUES)
+            cases.append(c)
+        else:
+            cases.append(mk(rng.choice(DECLARED), "valid", rng.choice(PLAINTEXTS + ["", None, b"\x00\xff"]), "random", rng))
     return cases
 
 
 def gcase(c):
-    return ""
+    from cincoconfig.encryption import AES_AVAILABLE
+    st = c["_o"]
+    return "(%s, %s, %s, %s, %s, %s, %s)" % (g_bool(AES_AVAILABLE), g_bytes(c["key1"]), g_bytes(c["iv"]), g_str(c["method"]),
+                                         gal(c["plain"]), g_bytes(st["key_used"]), gal(st["value"]))
+
+
+def _errkind(e):
+    from cincoconfig.encryption import EncryptionError
+    if isinstance(e, UnicodeError):
+        return "unicode"
+    if isinstance(e, EncryptionError):
+        return "encryption"
+    if isinstance(e, TypeError):
+        return "type"
+    if isinstance(e, ValueError):
+        return "value"
+    return "other"
+
+
+def _mutate(c, stored, raw, rng_seed):
+    """the stored value handed to to_python, derived from what to_basic wrote"""
+    import random
+    k = c["kind"]
+    out = {}
+    value = dict(stored)
+    if k == "plain-string":
+        value = c["plain"]
+    elif k == "none":
+        value = None
+    elif k == "missing-method":
+        del value["method"]
+    elif k == "none-method":
+        value["method"] = None
+    elif k == "empty-method":
+        value["method"] = ""
+    elif k == "unknown-method":
+        value["method"] = "rot13"
+    elif k == "method-not-str":
+        value["method"] = 7
+    elif k == "method-value":
+        value["method"] = c["arg"]
+    elif k == "other-value":
+        value = c["arg"]
+    elif k == "missing-ciphertext":
+        del value["ciphertext"]
+    elif k == "ciphertext-none":
+        value["ciphertext"] = None
+    elif k == "ciphertext-bytes":
+        value["ciphertext"] = stored["ciphertext"].encode()
+    elif k == "ciphertext-int":
+        value["ciphertext"] = 5
+    elif k == "ciphertext-list":
+        value["ciphertext"] = [stored["ciphertext"]]
+    elif k == "bad-base64":
+        value["ciphertext"] = stored["ciphertext"].rstrip("=") + "A"       # wrong length for base64
+        if len(value["ciphertext"]) % 4 == 0:
+            value["ciphertext"] += "A"
+    elif k == "unpadded-base64":
+        value["ciphertext"] = stored["ciphertext"].rstrip("=")          # the padding is part of the encoding
+        out["had_padding"] = stored["ciphertext"].endswith("=")
+    elif k == "overpadded-base64":
+        value["ciphertext"] = stored["ciphertext"] + "="
+    elif k == "base64-with-newline":
+        value["ciphertext"] = stored["ciphertext"][:4] + "\n" + stored["ciphertext"][4:]
+    elif k == "junk-base64":
+        value["ciphertext"] = junk_b64(random.Random(rng_seed), stored["ciphertext"])
+    elif k == "bad-base64-chars":
+        value["ciphertext"] = "Q"            # a single character is never valid base64
+    elif k == "truncated-1":
+        value["ciphertext"] = base64.b64encode(raw[:-1]).decode()
+    elif k == "truncated-block":
+        value["ciphertext"] = base64.b64encode(raw[:-16]).decode()
+    elif k == "truncated-to-iv":
+        value["ciphertext"] = base64.b64encode(raw[:16]).decode()
+    elif k == "extended-1":
+        value["ciphertext"] = base64.b64encode(raw + b"\x00").decode()
+    elif k == "extended-15":
+        value["ciphertext"] = base64.b64encode(raw + b"\x01" * 15).decode()
+    elif k == "empty-ciphertext":
+        value["ciphertext"] = ""
+    elif k == "wrong-container-list":
+        value = [stored["method"], stored["ciphertext"]]
+    elif k == "wrong-container-int":
+        value = 42
+    elif k == "wrong-container-bytes":
+        value = c["plain"].encode() if isinstance(c["plain"], str) else b"x"
+    elif k == "wrong-method-for-ciphertext":
+        value["method"] = "xor" if stored["method"] == "aes" else "aes"
+    return value, out
 
 
 def impl(c):
+    """returns (to_basic outcome, to_python outcome) for the model; everything the direct oracle needs is in c["_o"]"""
+    import os as _os
     from cincoconfig import Schema, SecureField
     d = tempfile.mkdtemp(prefix="verif_sv_")
     out = {}
+    st = {"out": out, "key_used": c["key1"], "value": None}
+    c["_o"] = st
+    real = _os.urandom
+
+    def fake(n):
+        if n != 16:
+            raise Broken("unexpected os.urandom(%d)" % n)
+        return c["iv"]
     try:
+        for name, key in (("k1", c["key1"]), ("k2", c["key2"])):
+            with open(os.path.join(d, name), "wb") as fp:
+                fp.write(key)
         s = Schema()
         s.sec = SecureField(method=c["method"])
         cfg = s(key_filename=os.path.join(d, "k1"))
         field = s._fields["sec"]
-        stored = field.to_basic(cfg, c["plain"])
-        out["stored_shape"] = (isinstance(stored, dict) and sorted(stored) == ["ciphertext", "method"]
-                               and stored["method"] in ("aes", "xor") and isinstance(stored["ciphertext"], str))
-        raw = base64.b64decode(stored["ciphertext"])
+        _os.urandom = fake
+        try:
+            try:
+                stored = field.to_basic(cfg, c["plain"])
+                basic = ("ok", stored)
+            except Broken:
+                raise
+            except Exception as e:  # noqa
+                stored = None
+                basic = ("err", _errkind(e))
+        finally:
+            _os.urandom = real
         k = c["kind"]
+        usable = isinstance(stored, dict) and isinstance(stored.get("ciphertext"), str) and isinstance(stored.get("method"), str)
+        out["usable"] = usable
         target = cfg
-        value = dict(stored)
-        if k == "valid-other-session":
-            target = s(key_filename=os.path.join(d, "k1"))
-        elif k == "valid-other-object":
-            s2 = Schema()
-            s2.other = SecureField(method="xor" if c["method"] == "aes" else "aes")     # decryption follows the RECORDED method
-            target = s2(key_filename=os.path.join(d, "k1"))
-            field = s2._fields["other"]
-        elif k == "plain-string":
-            value = c["plain"]
-        elif k == "none":
-            value = None
-        elif k == "missing-method":
-            del value["method"]
-        elif k == "none-method":
-            value["method"] = None
-        elif k == "empty-method":
-            value["method"] = ""
-        elif k == "unknown-method":
-            value["method"] = "rot13"
-        elif k == "method-not-str":
-            value["method"] = 7
-        elif k == "missing-ciphertext":
-            del value["ciphertext"]
-        elif k == "ciphertext-none":
-            value["ciphertext"] = None
-        elif k == "ciphertext-bytes":
-            value["ciphertext"] = stored["ciphertext"].encode()
-        elif k == "ciphertext-int":
-            value["ciphertext"] = 5
-        elif k == "ciphertext-list":
-            value["ciphertext"] = [stored["ciphertext"]]
-        elif k == "bad-base64":
-            value["ciphertext"] = stored["ciphertext"].rstrip("=") + "A"       # wrong length for base64
-            if len(value["ciphertext"]) % 4 == 0:
-                value["ciphertext"] += "A"
-        elif k == "unpadded-base64":
-            value["ciphertext"] = stored["ciphertext"].rstrip("=")          # the padding is part of the encoding
-            out["had_padding"] = stored["ciphertext"].endswith("=")
-        elif k == "overpadded-base64":
-            value["ciphertext"] = stored["ciphertext"] + "="
-        elif k == "base64-with-newline":
-            value["ciphertext"] = stored["ciphertext"][:4] + "\n" + stored["ciphertext"][4:]
-        elif k == "bad-base64-chars":
-            value["ciphertext"] = "Q"            # a single character is never valid base64
-        elif k == "truncated-1":
-            value["ciphertext"] = base64.b64encode(raw[:-1]).decode()
-        elif k == "truncated-block":
-            value["ciphertext"] = base64.b64encode(raw[:-16]).decode()
-        elif k == "truncated-to-iv":
-            value["ciphertext"] = base64.b64encode(raw[:16]).decode()
-        elif k == "extended-1":
-            value["ciphertext"] = base64.b64encode(raw + b"\x00").decode()
-        elif k == "extended-15":
-            value["ciphertext"] = base64.b64encode(raw + b"\x01" * 15).decode()
-        elif k == "empty-ciphertext":
-            value["ciphertext"] = ""
-        elif k == "other-key":
-            target = s(key_filename=os.path.join(d, "k2"))
-        elif k == "wrong-container-list":
-            value = [stored["method"], stored["ciphertext"]]
-        elif k == "wrong-container-int":
-            value = 42
-        elif k == "wrong-container-bytes":
-            value = c["plain"].encode()
-        elif k == "wrong-method-for-ciphertext":
-            value["method"] = "xor" if stored["method"] == "aes" else "aes"
-        out["recorded_method"] = stored["method"]
-        out["rawlen"] = len(raw)
+        if usable:
+            out["stored_shape"] = (sorted(stored) == ["ciphertext", "method"] and stored["method"] in ("aes", "xor"))
+            raw = base64.b64decode(stored["ciphertext"])
+            out["recorded_method"] = stored["method"]
+            out["rawlen"] = len(raw)
+            value, extra = _mutate(c, stored, raw, len(raw) * 7919 + c["iv"][0] * 31 + c["iv"][1])
+            out.update(extra)
+            if k == "valid-other-session":
+                target = s(key_filename=os.path.join(d, "k1"))
+            elif k == "valid-other-object":
+                s2 = Schema()
+                s2.other = SecureField(method="xor" if c["method"] == "aes" else "aes")     # decryption follows the RECORDED method
+                target = s2(key_filename=os.path.join(d, "k1"))
+                field = s2._fields["other"]
+            elif k == "other-key":
+                target = s(key_filename=os.path.join(d, "k2"))
+                st["key_used"] = c["key2"]
+        else:
+            # to_basic gave None (empty value) or failed: what it returned goes straight back in
+            value = stored if k != "other-value" else c["arg"]
+        st["value"] = value
         try:
             r = field.to_python(target, value)
             out["result"] = ("value", r)
-        except ValueError as e:
-            out["result"] = ("rejected", type(e).__name__)
+            py = ("ok", r)
         except Exception as e:  # noqa
-            out["result"] = ("raised", type(e).__name__)
+            out["result"] = ("rejected" if isinstance(e, ValueError) else "raised", type(e).__name__)
+            py = ("err", _errkind(e))
         # through the configuration: load_tree must wrap the rejection
-        if k not in ("plain-string", "none"):
+        if usable and k not in ("plain-string", "none"):
             from cincoconfig import ValidationError
+            fkey = "other" if k == "valid-other-object" else "sec"
             try:
-                target.load_tree({("other" if k == "valid-other-object" else "sec"): value})
-                out["load"] = ("value", target._data.get("other" if k == "valid-other-object" else "sec"))
+                target.load_tree({fkey: value})
+                out["load"] = ("value", target._data.get(fkey))
             except ValidationError:
                 out["load"] = ("rejected", "ValidationError")
             except Exception as e:  # noqa
                 out["load"] = ("raised", type(e).__name__)
+        return (basic, py)
+    except Broken:
+        raise
     except Exception as e:  # noqa
         out["setup"] = "%s: %s" % (type(e).__name__, e)
+        return ("setup-failed",)
     finally:
+        _os.urandom = real
         shutil.rmtree(d, ignore_errors=True)
-    return out
 
 
 MUST_ROUNDTRIP = {"valid", "valid-other-session", "valid-other-object"}
@@ -154,10 +294,26 @@ MUST_REJECT = {"missing-method", "none-method", "empty-method", "unknown-method"
                "wrong-container-list", "wrong-container-int", "wrong-container-bytes"}
 
 
-def oracle(c, obs):
+def oracle(c, model_obs):
     what = "SecureField(method=%s), stored value kind %s" % (c["method"], c["kind"])
-    if "setup" in obs:
-        return ["%s: setup failed: %s" % (what, obs["setup"])]
+    obs = c.get("_o", {}).get("out", {})
+    if "setup" in obs or "result" not in obs:
+        return ["%s: setup failed: %s" % (what, obs.get("setup"))]
+    if not obs["usable"] or not isinstance(c["plain"], str) or c["kind"] in ("method-value", "other-value", "junk-base64"):
+        # to_basic wrote null / refused (empty value, unknown declared method, unencodable text), or the stored
+        # value is one of the free-form ones: the model decides these; the property itself only demands that
+        # nothing but a ValueError comes out of to_python
+        if obs["result"][0] == "raised":
+            return ["%s: to_python failed with %s, which is not a ValueError" % (what, obs["result"][1])]
+        if c["kind"] == "junk-base64" and obs["usable"] and obs["result"][0] == "value" and obs["recorded_method"] == "aes" \
+                and c["_o"]["value"]["ciphertext"] != "" :
+            try:
+                n = len(base64.b64decode(c["_o"]["value"]["ciphertext"]))
+            except Exception:  # noqa
+                n = None
+            if n is None or n < 32 or n % 16:
+                return ["%s: a ciphertext that is undecodable / too short / not block-aligned returned a value" % what]
+        return []
     bad = []
     if not obs["stored_shape"]:
         bad.append("%s: to_basic did not produce {method: concrete, ciphertext: base64 text}" % what)
@@ -197,8 +353,13 @@ def oracle(c, obs):
     return bad
 
 
-def tags(c, obs):
-    return {"method:" + c["method"], "kind:" + c["kind"], "result:" + str(obs.get("result", ("?",))[0])}
+def tags(c, model_obs):
+    obs = c.get("_o", {}).get("out", {})
+    t = {"method:" + c["method"], "kind:" + c["kind"], "result:" + str(obs.get("result", ("?",))[0])}
+    if isinstance(model_obs, tuple) and len(model_obs) == 2:
+        t.add("to_basic:" + (model_obs[0][0] if model_obs[0][0] == "ok" else "err-" + model_obs[0][1]))
+        t.add("to_python:" + (model_obs[1][0] if model_obs[1][0] == "ok" else "err-" + model_obs[1][1]))
+    return t
 
 
 def nontrivial(c, obs):
